@@ -203,7 +203,7 @@ def partition_histories(ctx, b):
     rng = ctx.rng
     wd = ctx.sub("part")
     lines = []
-    nh = 30 if ctx.quick() else 600
+    nh = 30 if ctx.quick() else 400
     for n in range(nh):
         d = os.path.join(wd, "p%d" % n)
         os.makedirs(d, exist_ok=True)
@@ -264,9 +264,9 @@ def run(ctx):
     rng = ctx.rng
     tlc_models(ctx)
     partition_histories(ctx, b)
-    hs = tlc_behaviours(ctx, 150 if ctx.quick() else 6000)
-    hs += [random_history(rng, rng.choice([10, 25, 60])) for _ in range(100 if ctx.quick() else 4000)]
-    nmany = 40 if ctx.quick() else 800
+    hs = tlc_behaviours(ctx, 150 if ctx.quick() else 3500)
+    hs += [random_history(rng, rng.choice([10, 25, 60])) for _ in range(100 if ctx.quick() else 2500)]
+    nmany = 40 if ctx.quick() else 500
     many0 = len(hs)
     hs += [random_history(rng, rng.choice([10, 25]), universe=list(FILES_MANY) + ["m", "g"]) for _ in range(nmany)]
     wd = ctx.sub("run")
